@@ -822,6 +822,9 @@ def filter_specs(draw) -> dict:
             start = draw(st.integers(0, 300))
         score = draw(st.one_of(st.sampled_from(SCORES), st.sampled_from(SCORES),
                                st.integers(1, 300).map(lambda v: v / 10)))
+        # one profile never hits one protein twice at the same coordinates (HMMER reports distinct domains)
+        while any(h[:2] == [cds, profile] and h[2] == start and h[3] == start + size for h in hits):
+            start += 1
         hits.append([cds, profile, int(start), int(start + size), float(score)])
     return {"groups": groups, "hits": hits}
 
